@@ -1229,3 +1229,164 @@ func conditionCheckedOnPaths(fn *ssa.Function, create *ssa.Store) bool {
 	}
 	return reached > 0
 }
+
+// NeverDroppedSilently (R5.4s): the paths of a callback that register a declaration in its table share a set of
+// conditions (the callback's own entry guards: the object exists, has a name, is of the kind the table is for). Every
+// other path of the callback that does not contradict one of those conditions — it is about a declaration of that
+// same kind — registers it too or notifies the error listeners. A path that does neither has dropped the declaration
+// from the bookkeeping: a later duplicate of it is then compared with nothing.
+func NeverDroppedSilently(p *load.Prog, r *oblig.Report, rule string, specs []TableSpec) {
+	for _, sp := range specs {
+		fn := p.Method("transformer", "OpenFgaDslListener", sp.Func)
+		construct := "never-dropped:" + sp.Func + ":" + sp.MapPath
+		if fn == nil {
+			r.Unknown(rule, construct, "-", "listener method "+sp.Func+" not found")
+			continue
+		}
+		ex := &pathx.Explorer{Root: fn, MaxPaths: 20000}
+		paths := ex.Explore()
+		if ex.Overflow || len(paths) == 0 {
+			r.Unknown(rule, construct, p.Pos(fn.Pos()), "the paths of the callback could not be enumerated")
+			continue
+		}
+		tail := sp.MapPath[strings.Index(sp.MapPath, ".")+1:]
+		type fact struct {
+			atom string
+			val  bool
+		}
+		var common map[fact]bool
+		registers := map[int]bool{}
+		for i, pt := range paths {
+			for _, ev := range pt.Events {
+				mu, ok := ev.Instr.(*ssa.MapUpdate)
+				if !ok || !strings.HasSuffix(pt.Render(ev.Term(mu.Map)), "."+tail) {
+					continue
+				}
+				registers[i] = true
+				here := map[fact]bool{}
+				for _, f := range pt.Facts(ev.NCond) {
+					if strings.Contains(f.Atom, "."+tail) {
+						continue // the duplicate test itself
+					}
+					here[fact{f.Atom, f.Value}] = true
+				}
+				if common == nil {
+					common = here
+				} else {
+					for k := range common {
+						if !here[k] {
+							delete(common, k)
+						}
+					}
+				}
+			}
+		}
+		if len(registers) == 0 {
+			r.Unknown(rule, construct, p.Pos(fn.Pos()), "no path of "+sp.Func+" writes "+sp.MapPath+": anchor no longer resolves")
+			continue
+		}
+		bad := ""
+		for i, pt := range paths {
+			if registers[i] {
+				continue
+			}
+			contradicts, notified := false, false
+			for _, f := range pt.Facts(-1) {
+				if common[fact{f.Atom, !f.Value}] {
+					contradicts = true
+				}
+			}
+			for _, ev := range pt.Events {
+				if isNotifyCall(ev.Instr) {
+					notified = true
+				}
+			}
+			if pt.End == "panic" {
+				continue
+			}
+			if !contradicts && !notified {
+				bad = factList(pt.Facts(-1))
+				break
+			}
+		}
+		var cs []string
+		for k := range common {
+			cs = append(cs, fmt.Sprintf("%s=%v", k.atom, k.val))
+		}
+		sort.Strings(cs)
+		if bad != "" {
+			r.Bad(rule, construct, p.Pos(fn.Pos()), "a "+sp.What+" that meets the conditions under which it is registered ("+strings.Join(cs, ", ")+") leaves "+sp.Func+" on a path that neither writes "+sp.MapPath+" nor notifies the error listeners (conditions of that path: "+bad+"): a later duplicate of it is compared with nothing")
+		} else {
+			r.OK(rule, construct, p.Pos(fn.Pos()), "paths", fmt.Sprintf("%d paths, %d register; shared conditions: %s", len(paths), len(registers), strings.Join(cs, ", ")))
+		}
+	}
+}
+
+// BuiltFromOwnContext (C03.7): a model object (a pointer to a message of the OpenFGA API) that a listener callback
+// stores into the model is made in that callback from the parse-tree node it was handed; it is not an object fetched
+// from a table the listener keeps across declarations. Two declarations that are written differently and share a
+// remembered object carry the text of whichever came first, and they share storage.
+func BuiltFromOwnContext(p *load.Prog, r *oblig.Report, rule string, funcs []*ssa.Function) {
+	n := 0
+	for _, f := range funcs {
+		if f.Pkg == nil || f.Pkg.Pkg.Name() != "transformer" || f.Signature.Recv() == nil || len(f.Params) == 0 ||
+			!strings.Contains(f.Params[0].Type().String(), "OpenFgaDslListener") {
+			continue
+		}
+		recv := f.Params[0].Name()
+		var origin func(v ssa.Value, depth int) string
+		origin = func(v ssa.Value, depth int) string {
+			if depth > 6 {
+				return ""
+			}
+			switch x := v.(type) {
+			case *ssa.Lookup:
+				if _, isMap := x.X.Type().Underlying().(*types.Map); isMap && strings.HasPrefix(AccessPath(x.X), recv+".") {
+					return AccessPath(x.X)
+				}
+			case *ssa.Extract:
+				return origin(x.Tuple, depth+1)
+			case *ssa.ChangeType:
+				return origin(x.X, depth+1)
+			case *ssa.Phi:
+				for _, e := range x.Edges {
+					if o := origin(e, depth+1); o != "" {
+						return o
+					}
+				}
+			}
+			return ""
+		}
+		for _, b := range f.Blocks {
+			for _, in := range b.Instrs {
+				var val ssa.Value
+				var dst string
+				switch x := in.(type) {
+				case *ssa.MapUpdate:
+					val, dst = x.Value, AccessPath(x.Map)
+				case *ssa.Store:
+					val, dst = x.Val, AccessPath(x.Addr)
+				default:
+					continue
+				}
+				if !strings.HasPrefix(dst, recv+".") {
+					continue
+				}
+				pt, ok := val.Type().Underlying().(*types.Pointer)
+				if !ok || !strings.Contains(pt.Elem().String(), "openfga/api/proto") {
+					continue
+				}
+				n++
+				construct := "own-context:" + f.Name() + ":" + stripUnique(dst)
+				if o := origin(val, 0); o != "" && o != dst && strings.Count(o, ".") == 1 {
+					r.Bad(rule, construct, p.Pos(in.Pos()), "the object written to "+stripUnique(dst)+" is fetched from the table "+o+" the listener keeps across declarations, not built from the parse-tree node of this callback: a declaration spelled differently under the same key gets the object of the earlier one, and both share it")
+				} else {
+					r.OK(rule, construct, p.Pos(in.Pos()), "value-origin", "not a remembered object")
+				}
+			}
+		}
+	}
+	if n == 0 {
+		r.Unknown(rule, "own-context", "-", "no listener callback stores a model object: anchors no longer resolve")
+	}
+}
